@@ -46,17 +46,17 @@ ENGINE_TB = TB_COMMON + [
 
 ENGINE_STREAMS = {
     # property: list of (profile, histories quick, histories thorough, ops)
-    "C01": [("C01", 50, 1500, 40), ("static", 30, 1000, 40), ("wide", 30, 600, 30), ("widekids", 30, 600, 90), ("readd", 30, 1000, 30)],
-    "C02": [("C01", 40, 1500, 40), ("midset", 30, 1000, 40), ("binds", 30, 1500, 40), ("raise", 40, 1000, 30), ("chain", 30, 1000, 30)],
-    "C03": [("C01", 40, 1500, 40), ("faults", 30, 1000, 40), ("alwaysfaults", 40, 1000, 40), ("sentinel", 80, 2000, 40), ("sentinelfaults", 60, 1500, 40)],
-    "C05": [("C01", 30, 1500, 40), ("faults", 30, 1500, 40), ("reject", 30, 1000, 40), ("wide", 20, 400, 30), ("sentinel", 60, 1500, 40), ("fanout", 30, 1000, 46), ("sentinelfaults", 40, 1500, 40)],
-    "C06": [("C01", 40, 1500, 40), ("churn", 40, 1000, 60), ("wide", 20, 400, 30), ("sentinel", 60, 1500, 40), ("inner", 30, 1000, 40)],
-    "C07": [("faults", 50, 2000, 40), ("alwaysfaults", 50, 2000, 40), ("binds", 20, 1000, 40), ("reject", 30, 1000, 40), ("pardropfaults", 30, 1000, 30)],
-    "C08": [("binds", 60, 3000, 40), ("inner", 30, 1000, 40), ("bind2", 60, 2000, 40), ("deadobs", 40, 1500, 40), ("chain", 40, 1500, 30)],
-    "C10": [("C01", 30, 1500, 40), ("faults", 30, 1500, 40), ("inner", 40, 1500, 40)],
-    "C11": [("cutoffs", 60, 3000, 40), ("midset", 50, 1500, 40), ("readd", 40, 1500, 30), ("cutfaults", 40, 1500, 40)],
-    "C12": [("midset", 40, 1500, 40), ("unobs", 30, 1500, 40), ("relink", 50, 1500, 34)],
-    "C13": [("C01", 40, 1500, 40), ("midset", 30, 1500, 40), ("inner", 30, 1500, 40), ("faults", 30, 1500, 40)],
+    "C01": [("C01", 50, 1500, 40), ("static", 30, 1000, 40), ("wide", 30, 600, 30), ("widekids", 30, 600, 90), ("readd", 30, 1000, 30), ("mix", 40, 2000, 40)],
+    "C02": [("C01", 40, 1500, 40), ("midset", 30, 1000, 40), ("binds", 30, 1500, 40), ("raise", 40, 1000, 30), ("chain", 30, 1000, 30), ("mix", 40, 2000, 40)],
+    "C03": [("C01", 40, 1500, 40), ("faults", 30, 1000, 40), ("alwaysfaults", 40, 1000, 40), ("sentinel", 80, 2000, 40), ("sentinelfaults", 60, 1500, 40), ("mix", 40, 2000, 40)],
+    "C05": [("C01", 30, 1500, 40), ("faults", 30, 1500, 40), ("reject", 30, 1000, 40), ("wide", 20, 400, 30), ("sentinel", 60, 1500, 40), ("fanout", 30, 1000, 46), ("sentinelfaults", 40, 1500, 40), ("mix", 40, 2000, 40)],
+    "C06": [("C01", 40, 1500, 40), ("churn", 40, 1000, 60), ("wide", 20, 400, 30), ("sentinel", 60, 1500, 40), ("inner", 30, 1000, 40), ("mix", 40, 2000, 40)],
+    "C07": [("faults", 50, 2000, 40), ("alwaysfaults", 50, 2000, 40), ("binds", 20, 1000, 40), ("reject", 30, 1000, 40), ("pardropfaults", 30, 1000, 30), ("mix", 40, 2000, 40)],
+    "C08": [("binds", 60, 3000, 40), ("inner", 30, 1000, 40), ("bind2", 60, 2000, 40), ("deadobs", 40, 1500, 40), ("chain", 40, 1500, 30), ("mix", 40, 2000, 40)],
+    "C10": [("C01", 30, 1500, 40), ("faults", 30, 1500, 40), ("inner", 40, 1500, 40), ("mix", 40, 2000, 40)],
+    "C11": [("cutoffs", 60, 3000, 40), ("midset", 50, 1500, 40), ("readd", 40, 1500, 30), ("cutfaults", 40, 1500, 40), ("mix", 40, 2000, 40)],
+    "C12": [("midset", 40, 1500, 40), ("unobs", 30, 1500, 40), ("relink", 50, 1500, 34), ("mix", 40, 2000, 40)],
+    "C13": [("C01", 40, 1500, 40), ("midset", 30, 1500, 40), ("inner", 30, 1500, 40), ("faults", 30, 1500, 40), ("mix", 40, 2000, 40)],
 }
 
 
@@ -79,15 +79,15 @@ ENGINE_INCLUDES = {
 # online on a graph driven by ParallelStabilize. Parallelism 1 is deterministic and is replayed on the model
 # (Engine.parStabilize); parallelism 4 runs in a child process (a deadlock or a dying worker is an outcome).
 ENGINE_PAR_STREAMS = {
-    "C01": ["binds", "pardrop"],
-    "C02": ["binds", "raise", "pardrop"],
-    "C03": ["binds", "pardrop"],
-    "C05": ["binds", "churn"],
-    "C06": ["binds", "churn"],
-    "C08": ["binds", "inner"],
-    "C10": ["pardrop", "inner"],
-    "C12": ["midset", "relink"],
-    "C13": ["binds", "midset", "faults"],
+    "C01": ["binds", "pardrop", "mix"],
+    "C02": ["binds", "raise", "pardrop", "mix"],
+    "C03": ["binds", "pardrop", "mix"],
+    "C05": ["binds", "churn", "mix"],
+    "C06": ["binds", "churn", "mix"],
+    "C08": ["binds", "inner", "mix"],
+    "C10": ["pardrop", "inner", "mix"],
+    "C12": ["midset", "relink", "mix"],
+    "C13": ["binds", "midset", "faults", "mix"],
 }
 
 
@@ -494,7 +494,7 @@ def run_C04(ctx, K):
         run_par_stream(ctx, K, br, "binds", par, tier_n(ctx, 300, 2000), "race-binds-p%d" % par, True)
     run_par_stream(ctx, K, br, "pardrop", 4, tier_n(ctx, 300, 2000), "race-pardrop-p4", True)
     # 4. failing and panicking node functions (generated online on the parallel graph), race detector on
-    for profile in ("faults", "alwaysfaults"):
+    for profile in ("faults", "alwaysfaults", "mix"):
         run_par_stream(ctx, K, br, profile, 4, tier_n(ctx, 150, 1500), "race-%s-p4" % profile, True)
     # 5. shapes outside the generated alphabet
     run_parscen(ctx, K)
